@@ -137,7 +137,7 @@ fn code_of(r: &mut Rng, tag: Tag) -> [u8; 2] {
 }
 
 /// a first element whose header is built by hand
-fn crafted_first(r: &mut Rng, enc: u8, cut: &mut bool) -> Vec<u8> {
+fn crafted_first(r: &mut Rng, enc: u8, cut: &mut bool, allow_cut: bool) -> Vec<u8> {
     let (g, e) = *r.pick(TAGS);
     let tag = Tag(g, e);
     let mut out = Vec::new();
@@ -155,9 +155,10 @@ fn crafted_first(r: &mut Rng, enc: u8, cut: &mut bool) -> Vec<u8> {
             1 => r.below(16) as u16,
             _ => 0,
         };
+        let hi = if allow_cut { hi } else { 0 };
         let len = u32::from(code[0]) | u32::from(code[1]) << 8 | u32::from(hi) << 16;
         out.extend_from_slice(&len.to_le_bytes());
-        let full = hi == 0 && r.chance(2, 3);
+        let full = !allow_cut || (hi == 0 && r.chance(2, 3));
         let n = if full { len as usize } else { r.usize(0, 24) };
         *cut |= n < len as usize;
         // value bytes are small numbers: when the element is taken for explicit VR they are read as a
@@ -225,14 +226,14 @@ fn ds_case(r: &mut Rng, thorough: bool) -> String {
     // whether the byte string is (possibly) not a complete data set
     let mut cut = false;
     match kind {
-        3..=34 => bytes.extend(crafted_first(r, enc, &mut cut)),
+        3..=34 => bytes.extend(crafted_first(r, enc, &mut cut, true)),
         35..=37 => {
             // stray item delimiters before the first element
             for _ in 0..r.usize(1, 3) {
                 bytes.extend_from_slice(&[0xFE, 0xFF, 0x0D, 0xE0, 0, 0, 0, 0]);
             }
             if r.chance(1, 2) {
-                bytes.extend(crafted_first(r, enc, &mut cut));
+                bytes.extend(crafted_first(r, enc, &mut cut, true));
             }
         }
         38 => {
@@ -245,6 +246,13 @@ fn ds_case(r: &mut Rng, thorough: bool) -> String {
         _ => {}
     }
     bytes.extend(body);
+    if r.chance(1, if enc == 0 { 12 } else { 6 }) {
+        // later elements whose VR code disagrees with the dictionary (explicit) / whose length spells a
+        // VR code (implicit): only the first element may decide
+        for _ in 0..r.usize(1, if enc == 0 { 1 } else { 2 }) {
+            bytes.extend(crafted_first(r, enc, &mut cut, false));
+        }
+    }
     if r.chance(1, 40) && !bytes.is_empty() {
         // truncated somewhere
         let k = r.usize(0, bytes.len() - 1);
